@@ -1049,7 +1049,14 @@ class Wtp:
         else:
             ns_prefix = ""
         if namespace_id != 0 and not title.startswith(ns_prefix):
-            title = ns_prefix + title
+            if namespace_id and title.lower().startswith(
+                self.namespace_prefixes(namespace_id)
+            ):
+                # lower case or aliased prefix: store the page under the
+                # local namespace name, where get_page() looks for it
+                title = ns_prefix + title[title.index(":") + 1 :]
+            else:
+                title = ns_prefix + title
 
         if title.startswith("Main:"):
             title = title[5:]
